@@ -39,7 +39,9 @@ CODE_CORE = ["`x`", "`a b`", "`foo(bar, baz)`", "`--flag value`", "`*not em*`", 
              "`a|b`", "`{% t %}`", "`[l](u)`", "`` a`b ``", "`` `x` ``", "``` a``b ```", "`` `a - b ``", "`` 1. `x` # y ``",
              "`a  b`", "`- x`",
              # CJK next to ASCII letters/digits inside a span: the CJK/Latin spacing is for prose only
-             "`pip安装flowmark`", "`v2中文`", "`~/.config/tool`", "`a~b`"]
+             "`pip安装flowmark`", "`v2中文`", "`~/.config/tool`", "`a~b`",
+             # tag delimiters inside code are code (the multi-line tag workaround must not split the line there)
+             "`a%}{%/x%}`", "`x --><!-- /y -->`", "``` c``d %}{% /e ```"]
 CODE_HOSTILE = ["`end. Next`", "` x `"]
 LINK_CORE = ["[link](http://ex.com/a)", "[two words](http://ex.com/a_b?q=1&r=2)", "[a b c](http://u.v/w \"T t\")",
              "![alt text](img.png)", "![a](i.png \"ti tle\")", "<https://example.org/path>", "[*em* link](http://x.y/z)",
@@ -77,7 +79,7 @@ ESCAPES = ["\\*", "\\_", "\\#", "\\[x\\]", "\\>", "a\\|b", "&amp;", "&lt;", "&#3
 ESCAPES_NUM = ["1999\\."]
 HAZ = ["-", "+", "*", ">", "#", "##", "1.", "2)", "10.", "---", "===", "=", "--", "***", "___", "```", "~~~",
        ">>", "|", "+x", "#tag", "1.5", "\\", "[x]", "[ ]", "<", "&", ":", "- - -", "* * *", "~", "|a|b|", "<div>"]
-INFO = ["", "", "python", "sh -x", "c++", "text title=\"a b\"", "{.cls #id}"]
+INFO = ["", "", "python", "sh -x", "c++", "text title=\"a b\"", "{.cls #id}", "a\\*b c\\*d", "x\\\\y"]
 CODE_LINES = ["x = 1", "", "  indented", "> not quote", "- not list", "# no heading", "\ttab", "trailing  ", "1. n",
               "    deep", "a `b` c", "it's \"q\"...", "<b>&amp;</b>", "{% t %}", "[l]: http://u", "| a | b |", "***",
               "\\", "http://x.y", "end \\",
@@ -107,8 +109,8 @@ _BLOCKSTART = ("-", "+", "*", ">", "#", "=", "`", "~", "|", "_", "<", ":", "[", 
 def _could_start_block(w: str) -> bool:
     if w[:1] in "*_" and len(w) > 1 and (w[1].isalnum() or (w[1] in "*_" and len(w) > 2 and w.strip("*_")[:1].isalnum())):
         return False  # emphasis opener, not a bullet / rule
-    if w[:1] == "`" and not w.startswith("```"):
-        return False
+    if w[:1] == "`" and (not w.startswith("```") or "`" in w.lstrip("`")):
+        return False  # a code span, also one delimited by three or more backticks (a backtick fence has no backtick in its info string)
     if w[:2] == "~~" and not w.startswith("~~~"):
         return False
     if w[:1] == "[" and not w.startswith("[^"):
@@ -125,9 +127,13 @@ def _unindent_fence(b: dict) -> None:
 
 
 class Gen:
-    def __init__(self, seed: int, profile: str):
+    def __init__(self, seed: int, profile: str, scale: int = 1):
         self.r = random.Random(seed)
         self.profile = profile
+        # scale > 1: documents of the sizes small random cases never reach (lists of 10+ / 100+ items whose markers gain a
+        # digit, tables of dozens of rows, long code blocks, many blocks, long paragraphs). scale == 1 draws exactly the
+        # same random numbers as before (witnesses stored by seed stay valid).
+        self.scale = scale
         self.feats: set = set()
         self.fn_labels: list[str] = []
         self.ref_labels: list[str] = []
@@ -242,6 +248,8 @@ class Gen:
         segs = []
         nseg = 1 if r.random() < 0.9 else r.randint(2, 3)
         long_para = r.random() < 0.01  # a paragraph of more than 8 KB (a length at which another code path might take over)
+        if self.scale > 1 and r.random() < 0.04:
+            maxsent = maxsent * self.scale
         for _ in range(nseg):
             ws: list[str] = []
             for _ in range(r.randint(1, maxsent) if not long_para else r.randint(120, 200)):
@@ -377,7 +385,7 @@ class Gen:
         info = r.choice(INFO)
         if ch == "`" and "`" in info:
             info = "python"
-        lines = [r.choice(CODE_LINES) for _ in range(r.randint(0, 5))]
+        lines = [r.choice(CODE_LINES) for _ in range(r.randint(0, 5) if self.scale == 1 else r.choice([r.randint(0, 5), r.randint(20, 30 * self.scale)]))]
         if r.random() < 0.35:
             self.feats.add("fence-like-content")
             other = "~" if ch == "`" else "`"
@@ -408,7 +416,7 @@ class Gen:
     def table(self) -> dict:
         r = self.r
         self.feats.add("table")
-        n = r.randint(1, 4)
+        n = r.randint(1, 4) if self.scale == 1 else r.choice([r.randint(1, 4), r.randint(5, 12)])
 
         def cell() -> list[str]:
             k = r.random()
@@ -418,7 +426,7 @@ class Gen:
                 return [r.choice(["`x`", "`a\\|b`", "*e*", "**s**", "1\\|2", "[l](http://u.v)", "~~d~~", "it's", "\"q\""])]
             return [self.word() for _ in range(r.randint(1, 3))]
 
-        rows = [[cell() for _ in range(n)] for _ in range(r.randint(1, 4))]
+        rows = [[cell() for _ in range(n)] for _ in range(r.randint(1, 4) if self.scale == 1 else r.choice([r.randint(1, 4), r.randint(10, 12 * self.scale)]))]
         if not any(rows[0]):
             rows[0][0] = ["H"]
         rows[0] = [c or ["h"] for c in rows[0]]
@@ -435,12 +443,21 @@ class Gen:
         self.feats.add("olist" if ordered else ("tasklist" if task else "ulist"))
         tight = r.random() < 0.55
         nitems = r.randint(1, 4)
+        if self.scale > 1 and depth <= 1 and not getattr(self, "_in_big", False):
+            # enough items for an ordered list to gain a digit (9 -> 10, 99 -> 100) and for "every item" loops to matter
+            nitems = r.choice([nitems, nitems, r.randint(5, 9), r.randint(10, 14), r.randint(10, 14), 101 + r.randint(0, 9) if depth == 0 and self.scale >= 8 else r.randint(15, 30)])
+            self.feats.add("list-%s-items" % ("100+" if nitems > 100 else ("10+" if nitems >= 10 else "<10")))
         items = []
+        big = nitems > 9 and not getattr(self, "_in_big", False)
+        if big:
+            self._in_big = True  # lists nested inside a long list stay small
         for _ in range(nitems):
             blocks = [self.para(2 if tight else 3)]
             if task:
                 blocks[0]["task"] = r.choice([" ", "x", "X"])
             extra = r.random()
+            if nitems > 9 and r.random() < (0.7 if nitems < 15 else 0.92):
+                extra = 1.0  # long lists: mostly one-paragraph items (keeps the document size linear in the item count)
             if not task and depth < 2 and r.random() < 0.06:
                 # an item whose only block is a block quote (a single block: the list may still be tight)
                 blocks = [{"t": "quote", "blocks": self.blocks(depth + 1, "quote", r.randint(1, 2))}]
@@ -456,6 +473,8 @@ class Gen:
                 blocks.append(self.block(depth + 1, "item"))
                 self.feats.add("multi-block-item")
             items.append(blocks)
+        if big:
+            self._in_big = False
         if not task and r.random() < 0.06:
             # a thematic break as the whole content of an item (the rule must not merge with the bullet into one long rule)
             items[r.randrange(nitems)] = [{"t": "hr", "s": "item"}]
@@ -712,9 +731,11 @@ class Ser:
 
 
 def gen_doc(seed: int, profile: str = "core", layout_seed: int | None = None, wild_layout: bool = True,
-            nblocks: tuple[int, int] = (1, 6)) -> Doc:
-    g = Gen(seed, profile)
+            nblocks: tuple[int, int] = (1, 6), scale: int = 1) -> Doc:
+    g = Gen(seed, profile, scale)
     n = g.r.randint(*nblocks)
+    if scale > 1 and g.r.random() < 0.12:
+        n = g.r.randint(nblocks[1], nblocks[1] * min(scale, 4))
     tree = g.blocks(0, "top", n)
     if tree[0]["t"] == "fence":
         # the document is stripped before parsing: a leading fence cannot be indented
@@ -740,6 +761,6 @@ if __name__ == "__main__":
     import sys
 
     d = gen_doc(int(sys.argv[1]), sys.argv[2] if len(sys.argv) > 2 else "core",
-                int(sys.argv[3]) if len(sys.argv) > 3 else None)
+                int(sys.argv[3]) if len(sys.argv) > 3 and sys.argv[3] != "-" else None, scale=int(sys.argv[4]) if len(sys.argv) > 4 else 1)
     print(d.text)
     print(sorted(d.feats))
